@@ -71,10 +71,10 @@ theorem dw_all (w r : List Char) (hw : ∀ x ∈ w, isGapC x = true) : dw (w ++ 
     exact ih fun y hy => hw y (by simp [hy])
 
 theorem tw_stop (d : Char) (r : List Char) (hd : isGapC d = false) : tw (d :: r) = [] := by
-  simp [tw, List.takeWhile_cons, hd]
+  simp [tw, hd]
 
 theorem dw_stop (d : Char) (r : List Char) (hd : isGapC d = false) : dw (d :: r) = d :: r := by
-  simp [dw, List.dropWhile_cons, hd]
+  simp [dw, hd]
 
 theorem gaps_at (a b : List Char) : gaps (a ++ b) a.length = tw b := by
   simp [gaps]
